@@ -843,7 +843,7 @@ func (w *World) classifyRoot(r *Report, rule, key string, fn *ssa.Function, in s
 			r.bad(rule, key, pos, fmt.Sprintf("run-time closure %s writes through %q, a parameter of build-time function %s captured at compile time: that memory is shared by every clone", fnName(fn), x.Name(), fnName(owner)))
 			return
 		}
-		if x == recvOf(owner) {
+		if x == recvOf(owner) && (!runtime || w.ownedReceiver(x.Type())) {
 			r.ok(rule, key, pos, "state of the receiver "+typeName(x.Type())+" (owned by one clone / one iterator / guarded by K-LOCK)")
 			return
 		}
@@ -854,8 +854,13 @@ func (w *World) classifyRoot(r *Report, rule, key string, fn *ssa.Function, in s
 		// a helper that fills an object its callers made: every call site passes,
 		// in this position, a value rooted only at objects freshly made in the
 		// caller's own activation (or nil)
+		w.sharedWhy = ""
 		if ok, why := w.paramAlwaysFresh(x, 0); ok {
 			r.ok(rule, key, pos, "write through parameter "+x.Name()+": "+why)
+			return
+		}
+		if w.sharedWhy != "" {
+			r.bad(rule, key, pos, fmt.Sprintf("%s writes through %s, which %s: the memory is shared by every clone and every goroutine evaluating the expression", fnName(fn), x.Name(), w.sharedWhy))
 			return
 		}
 		r.undec(rule, key, pos, fmt.Sprintf("run-time write through non-receiver parameter %s of %s", x.Name(), fnName(owner)))
@@ -1407,14 +1412,35 @@ func (w *World) paramAlwaysFresh(p *ssa.Parameter, depth int) (bool, string) {
 		if idx-off < 0 || idx-off >= len(args) {
 			return false, ""
 		}
-		for _, root := range addrRoots(args[idx-off]) {
+		roots := addrRoots(args[idx-off])
+		// a captured variable: what the enclosing function bound to it
+		for i := 0; i < len(roots); i++ {
+			if fv, ok := roots[i].(*ssa.FreeVar); ok {
+				if b := bindingOf(fv); b != nil {
+					roots = append(roots[:i:i], append(addrRoots(b), roots[i+1:]...)...)
+					i--
+				}
+			}
+		}
+		for _, root := range roots {
 			switch x := root.(type) {
 			case *ssa.MakeMap, *ssa.MakeSlice, *ssa.Const:
 			case *ssa.Alloc:
 				if x.Parent() != site.Parent() && !w.sameTree(x.Parent(), site.Parent()) {
 					return false, ""
 				}
+				if w.RunTime[site.Parent()] && !w.RunTime[x.Parent()] {
+					w.sharedWhy = fmt.Sprintf("at %s is %q, a variable of build-time function %s captured by the run-time closure", w.instrPos(site), x.Comment, fnName(x.Parent()))
+					return false, ""
+				}
 			case *ssa.Parameter:
+				if x == recvOf(x.Parent()) && w.ownedReceiver(x.Type()) {
+					continue // state of a query / iterator / cache object
+				}
+				if w.RunTime[site.Parent()] && !w.RunTime[x.Parent()] {
+					w.sharedWhy = fmt.Sprintf("at %s is %q, a parameter of build-time function %s captured by the run-time closure", w.instrPos(site), x.Name(), fnName(x.Parent()))
+					return false, ""
+				}
 				if ok, _ := w.paramAlwaysFresh(x, depth+1); !ok {
 					return false, ""
 				}
@@ -1425,4 +1451,22 @@ func (w *World) paramAlwaysFresh(p *ssa.Parameter, depth int) (bool, string) {
 		n++
 	}
 	return true, fmt.Sprintf("at all %d call sites the argument is an object made by the caller for this evaluation", n)
+}
+
+// ownedReceiver: the receiver is an object one clone, one iterator or the
+// lock-guarded cache owns: a query type, the pattern cache, or an exported type
+// of the package (Expr, NodeIterator). Methods of other (helper) types are
+// judged by what their callers pass as receiver.
+func (w *World) ownedReceiver(t types.Type) bool {
+	n, ok := derefNamed(t)
+	if !ok {
+		return false
+	}
+	if w.census.ByType[n] != nil || n.Obj().Exported() {
+		return true
+	}
+	if ct, _ := w.cacheType(); ct != nil && ct == n {
+		return true
+	}
+	return false
 }
